@@ -215,7 +215,8 @@ type Gate struct {
 	node    *Node
 	kind    string // "propose","validate","committee","commit","newround"
 	height  uint64
-	view    uint64 // view attributed to the call (best effort, see noteSpiPosition)
+	vmin, vmax uint64 // bounds of the view of the context position the library used for this call
+	ignoresCtx bool
 	ctx     context.Context
 	release chan GateVerdict
 	sawDone bool
@@ -235,12 +236,23 @@ func (n *Node) gateEnter(ctx context.Context, kind string, height uint64) GateVe
 		return v
 	}
 	g := &Gate{node: n, kind: kind, height: height, ctx: ctx, release: make(chan GateVerdict, 1), started: w.seq}
-	if hv := n.lh.State().HeightView(); hv != nil {
-		g.view = uint64(hv.View())
-	}
+	n.gatePosition(g)
 	n.gates = append(n.gates, g)
 	w.stats.Fault("spi-block")
+	w.ev("spi-blocked n%d %s h%d view[%d,%d]", n.idx, kind, height, g.vmin, g.vmax)
 	var res GateVerdict
+	if kind == "propose" && n.lateResultPm > 0 && w.ch.Chance("late-result", n.lateResultPm) {
+		// a consumer whose proposal arrives after its context was cancelled (deliberately ignores ctx)
+		g.ignoresCtx = true
+		w.stats.Fault("spi-late-result")
+		res = <-g.release
+		if ctx.Err() != nil {
+			g.late = true
+			w.probe("late-result-after-cancel")
+		}
+		n.removeGate(g)
+		return res
+	}
 	select {
 	case res = <-g.release:
 		if ctx.Err() != nil {
@@ -250,6 +262,7 @@ func (n *Node) gateEnter(ctx context.Context, kind string, height uint64) GateVe
 		g.sawDone = true
 		res = GateFail
 		w.probe("spi-released-by-ctx")
+		w.onGateCancelled(n, g)
 	}
 	n.removeGate(g)
 	return res
@@ -329,8 +342,14 @@ func (m *Membership) RequestOrderedCommittee(ctx context.Context, blockHeight pr
 	n.obs.committeeCalls++
 	if n.gateEnter(ctx, "committee", uint64(blockHeight)) == GateFail {
 		n.w.stats.Fault("spi-error-committee")
+		// the library retries after a fixed real-time pause: tell the scheduler that this node has a timed wake-up
+		n.w.syncClock()
+		n.wakeAt = n.w.now + 250*time.Millisecond
+		n.w.seq++
+		n.wakeSeq = n.w.seq
 		return nil, errors.New("committee lookup failed")
 	}
+	n.wakeAt = 0
 	n.obs.seedAt[uint64(blockHeight)] = randomSeed
 	return n.w.Committee(uint64(blockHeight)), nil
 }
